@@ -26,16 +26,43 @@ from typing import Dict, List, Optional, Tuple
 from .model import AnalysisError, Repo
 
 
+SEEDED_DIR = os.path.join(os.path.dirname(os.path.dirname(os.path.abspath(__file__))), "seeded")
+
+
 def load_variants(prop: str) -> List[dict]:
     try:
         mod = importlib.import_module(f"sa.mutants.{prop.lower()}")
+        out = list(getattr(mod, "VARIANTS", []))
     except ModuleNotFoundError:
-        return []
-    return list(getattr(mod, "VARIANTS", []))
+        out = []
+    # the seeded changes written by independent sub-agents are replayed as breaking variants
+    if os.path.isdir(SEEDED_DIR):
+        import json
+
+        for d in sorted(os.listdir(SEEDED_DIR)):
+            meta = os.path.join(SEEDED_DIR, d, "meta.json")
+            patch = os.path.join(SEEDED_DIR, d, "patch.diff")
+            if os.path.exists(meta) and os.path.exists(patch) and json.load(open(meta)).get("breaks_property") == prop:
+                out.append({"id": f"seeded:{d}", "kind": "break", "rule": "*", "patch": patch})
+    return out
 
 
 def apply_variant(repo_root: str, v: dict) -> Optional[Dict[str, str]]:
     """Returns the override map, or None when the variant is stale."""
+    if v.get("patch"):
+        from .patch import apply_unified_diff
+
+        with open(v["patch"], encoding="utf-8") as fh:
+            ov = apply_unified_diff(repo_root, fh.read())
+        if ov is None:
+            return None
+        for rel, src in ov.items():
+            if rel.endswith(".py"):
+                try:
+                    ast.parse(src)
+                except SyntaxError as ex:
+                    raise AnalysisError(f"variant {v['id']} does not parse: {ex}")
+        return ov
     overrides: Dict[str, str] = {}
     edits = v.get("edits") or [{"file": v["file"], "find": v["find"], "replace": v["replace"], "count": v.get("count", 1)}]
     for e in edits:
@@ -93,7 +120,7 @@ def _run_variant(args) -> dict:
         res["errors"] = list(ck.errors)
     if v["kind"] == "break":
         want = v["rule"] if isinstance(v["rule"], (list, tuple)) else [v["rule"]]
-        if any(w in res["fired"] for w in want):
+        if any(w in res["fired"] for w in want) or ("*" in want and res["fired"]):
             res["status"] = "detected"
         elif res["errors"]:
             res["status"] = "analysis-error-instead-of-violation"
